@@ -352,9 +352,11 @@ PLAN["C11"] = {
                    "best-effort writer fails, leaves an unused entry and records exactly one soft error per failed step (complete relative to stubs, thorough)",
     "verus": [],
     "kani": [{"tiers": Q, "jobs": 2, "timeout": 900, "harnesses": K_SUSPEND_THREADS},
-             {"tiers": T, "jobs": 2, "timeout": 5400, "mem_gb": 24, "harnesses": K_GENERATE}],
-    "trusted": ["well-formed JSON of the soft-error stream is serde_json + error-graph behaviour (assumed)",
-                "PtraceDumper::init's four best-effort steps are not yet under contract"],
+             {"tiers": T, "jobs": 2, "timeout": 5400, "mem_gb": 28, "harnesses": dict(K_GENERATE, **{
+                 "vk_init_best_effort_steps": H("C", "PtraceDumper::init (4 best-effort steps, all 16 failure combinations)")})}],
+    "native": [{"stem": "minidump_writer", "filter": "", "tiers": Q, "tests": {
+        "bprime_soft_error_stream_is_wellformed_json": H("B'", "write_soft_errors", "every subset of 6 representative soft errors (64)")}}],
+    "trusted": ["serde_json / error-graph serialisation beyond the 64 enumerated lists"],
     "samples": ["vk_generate_dump_control_flow: SOFT_ERRORS_SEEN == FAILED_BEST_EFFORT && ZERO_ENTRIES >= FAILED_BEST_EFFORT"],
 }
 
